@@ -152,6 +152,42 @@ def scn_sequence(kind, order, with_inv=True, with_mu=True, update=("inv", "mu"),
     return scn
 
 
+def scn_notification(kind, which, with_inv=True, with_mu=True, K=3):
+    """ordering postcondition of handle_parameter_changed: when the model announces a change to its listeners it is already marked stale,
+    so a listener that asks for rates() / probabilities() INSIDE the notification (another model recomputing eagerly, a logger) gets the
+    values of the parameters as they are at that moment - the parameter already holds the new value"""
+    def scn(mk):
+        from torchtree.core.parameter import Parameter
+        from torchtree.evolution.site_model import InvariantSiteModel, WeibullSiteModel
+        v1 = {"inv": mk.real("inv1", (1,), lo=0, hi=1, lo_incl=True), "mu": mk.real("mu1", (1,), lo=0), "shape": mk.real("shape1", (1,), lo=0)}
+        v2 = {"inv": mk.real("inv2", (1,), lo=0, hi=1, lo_incl=True), "mu": mk.real("mu2", (1,), lo=0), "shape": mk.real("shape2", (1,), lo=0)}
+        use = {"inv": with_inv or kind == "invariant", "mu": with_mu, "shape": kind != "invariant"}
+        ps = {k: (Parameter(k, v1[k]) if use[k] else None) for k in v1}
+
+        def build(vals):
+            q = {k: (None if vals[k] is None else Parameter(k + "_f", vals[k])) for k in vals}
+            if kind == "invariant":
+                return InvariantSiteModel("sm_f", q["inv"], q["mu"])
+            return WeibullSiteModel("sm_f", q["shape"], K, q["inv"], q["mu"])
+        m = InvariantSiteModel("sm", ps["inv"], ps["mu"]) if kind == "invariant" else WeibullSiteModel("sm", ps["shape"], K, ps["inv"], ps["mu"])
+        m.rates(), m.probabilities()      # caches warm, as in the middle of a run
+        seen = []
+
+        class Eager:
+            def handle_model_changed(self, model, obj, index):
+                seen.append((model.rates(), model.probabilities()))
+        m.add_model_listener(Eager())
+        ps[which].tensor = v2[which]
+        cur = {k: (None if not use[k] else (v2[k] if k == which else v1[k])) for k in v1}
+        fresh = build(cur)
+        cl = [("true", "listener_notified", len(seen) >= 1, "%d notifications" % len(seen))]
+        for r, p in seen:
+            cl.append(("eq", "rates_read_inside_the_notification_are_current", mk.lift(r), mk.lift(fresh.rates())))
+            cl.append(("eq", "probabilities_read_inside_the_notification_are_current", mk.lift(p), mk.lift(fresh.probabilities())))
+        return cl
+    return scn
+
+
 def scn_sequence_views(kind, through, order, K=3):
     """as scn_sequence, with the parameters of the model held as VIEWS of one packed vector [shape, inv, mu] (what the command line
     builds for partitioned data), the new values assigned through: 'own' the model's own views, 'parent' the packed parameter,
@@ -267,6 +303,12 @@ def obligations(tier, seed):
                         add("C05.sequence.weibull[K=%d,inv=%s,mu=%s,update %s then %s]" % (K_, with_inv, with_mu, "+".join(up), order), "scn_sequence",
                             ("weibull", order, with_inv, with_mu, up, K_), "postconditions hold for the current values after an update, in any request order")
     obs.append(ob_models_one_process())
+    for which in ("inv", "mu"):
+        add("C05.notification.invariant[update %s]" % which, "scn_notification", ("invariant", which), "a listener reading the model inside the change notification sees the current values")
+    for K_ in (1, 3):
+        for which in ("shape", "inv", "mu"):
+            add("C05.notification.weibull[K=%d,update %s]" % (K_, which), "scn_notification", ("weibull", which, True, True, K_),
+                "a listener reading the model inside the change notification sees the current values")
     for kind in ("invariant", "weibull"):
         for through in ("own", "parent", "block", "sibling"):
             for order in ("rp", "pr"):
